@@ -99,11 +99,7 @@ def variant_mapping(rng, v, X, Y, others, A, out, decl):
     return m, loop
 
 
-def gen_family(rng, size=None, spacetime_p=0.6):
-    """-> list of dict(yaml, kind, family, variant): `size` specifications over one Einsum / one set of names"""
-    names = rng.sample(RANKS, 3)
-    X, Y, Z = names
-    shape = rng.choice(["matmul", "matvec", "elementwise2", "reduce"])
+def _einsum(rng, shape, X, Y, Z):
     if shape == "matmul":        # Z[x, z] = A[y, x] * B[y, z]
         decl = {"A": [Y, X], "B": [Y, Z], "Z": [X, Z]}
         others = [Z]
@@ -120,6 +116,20 @@ def gen_family(rng, size=None, spacetime_p=0.6):
         decl["A"] = [decl["A"][i] for i in rng.sample(range(len(decl["A"])), len(decl["A"]))]
     idx = lambda t: "%s[%s]" % (t, ", ".join(r.lower() for r in decl[t]))
     expr = "%s = %s * %s" % (idx("Z"), idx("A"), idx("B"))
+    return decl, expr, others
+
+
+NOFLAT = ["none", "shape1", "shape2", "occ1", "occ2", "shape+occ"]
+
+
+def gen_family(rng, size=None, spacetime_p=0.6, siblings=None):
+    """-> list of dict(yaml, kind, family, variant): `size` specifications over one Einsum / one set of names, plus `siblings`
+    specifications over the same tensor names whose DECLARED rank names are names the other members derive (XY, Y0, Y1, XY0 ...):
+    there `XY0` is the bottom level of a split of the declared rank XY (not flattened), `Y0` is an unsplit rank that is its own root, ..."""
+    names = rng.sample(RANKS, 3)
+    X, Y, Z = names
+    shape = rng.choice(["matmul", "matvec", "elementwise2", "reduce"])
+    decl, expr, others = _einsum(rng, shape, X, Y, Z)
     size = size or rng.randint(4, 7)
     vs = rng.sample(VARIANTS, min(size, len(VARIANTS)))
     out = []
@@ -129,4 +139,14 @@ def gen_family(rng, size=None, spacetime_p=0.6):
         if rng.random() < spacetime_p:
             m["spacetime"] = {"Z": _spacetime(rng, loop)}
         out.append({"yaml": specgen.yaml_of(decl, [expr], m), "kind": "family", "family": fam, "variant": v, "syms": {}, "mapping": m})
+    for _ in range(rng.randint(1, 3) if siblings is None else siblings):
+        E = rng.choice([Y + "0", Y + "1", X + Y, X + Y + "0", X + Y + "1", Y + X, X + "0" + Y])
+        sh = rng.choice(["matmul", "matvec", "elementwise2", "reduce"])
+        d2, e2, o2 = _einsum(rng, sh, X, E, Z)
+        v = rng.choice(NOFLAT)
+        m, loop = variant_mapping(rng, v, X, E, o2, "A", "Z", d2)
+        if rng.random() < spacetime_p:
+            m["spacetime"] = {"Z": _spacetime(rng, loop)}
+        out.append({"yaml": specgen.yaml_of(d2, [e2], m), "kind": "family", "family": fam, "variant": "declared-%s:%s" % (E, v), "syms": {}, "mapping": m})
+    rng.shuffle(out)
     return out
